@@ -385,7 +385,10 @@ def finalize(ctx, setup):
     for d in DIS:
         byseed.setdefault(d[0], []).append(d)
     del DIS[:]
-    for seed, ds in sorted(byseed.items()):
+    import concurrent.futures as cf
+
+    def syntax_check(item):
+        seed, ds = item
         c = make_ctx(seed)
         lines = ['#include <stdint.h>', '#include <stddef.h>', '#include <sys/types.h>',
                  '#include <wchar.h>', '#include <uchar.h>', '#include <stdbool.h>',
@@ -399,9 +402,14 @@ def finalize(ctx, setup):
         with open(path, 'w') as f:
             f.write('\n'.join(lines) + '\n')
         r = subprocess.run(['gcc', '-fsyntax-only', '-std=gnu11',
-                            '-Werror=implicit-int', path], stdout=subprocess.PIPE, stderr=subprocess.PIPE, timeout=300)
-        badlines = set(int(m.group(1)) for m in
-                       re.finditer(r':(\d+):\d+: error', r.stderr.decode(errors='replace')))
+                            '-Werror=implicit-int', path], stdout=subprocess.PIPE,
+                           stderr=subprocess.PIPE, timeout=600)
+        os.unlink(path)
+        return seed, ds, base, set(int(m.group(1)) for m in re.finditer(
+            r':(\d+):\d+: error', r.stderr.decode(errors='replace')))
+    with cf.ThreadPoolExecutor(8) as ex:
+        checked = list(ex.map(syntax_check, sorted(byseed.items())))
+    for seed, ds, base, badlines in checked:
         if any(b <= base for b in badlines):
             ctx.inconclusive('gcc rejects the context declarations of seed %d' % seed)
             continue
